@@ -200,6 +200,9 @@ func (s *State) evalPostfixExpression(node *ast.PostfixExpression) object.Object
 // but now it's less clear because of the need to unwrap references too. TODO: fix/clarify.
 func (s *State) evalInternal(node any) object.Object { //nolint:funlen,gocognit,gocyclo // quite a lot of cases.
 	if s.Context != nil && s.Context.Err() != nil {
+		// An interrupted evaluation is not a result: nothing computed from it may be remembered (catch() can turn
+		// this error into a cacheable value).
+		s.env.TriggerNoCache()
 		return s.Error(s.Context.Err())
 	}
 	switch node := node.(type) {
